@@ -50,6 +50,10 @@ impl Settings {
         C: Buf,
         P: Peer,
     {
+        #[cfg(feature = "verif-hooks")]
+        let _verif = crate::verif::enter("settings.recv_settings", || {
+            self.verif_args(&[frame.is_ack() as i64], &[Some(&frame)])
+        });
         if frame.is_ack() {
             match &self.local {
                 Local::WaitingAck(local) => {
@@ -68,12 +72,16 @@ impl Settings {
                     }
 
                     streams.apply_local_settings(local)?;
+                    #[cfg(feature = "verif-hooks")]
+                    crate::verif::ev("settings.local_applied", Vec::new);
                     self.local = Local::Synced;
                     Ok(())
                 }
                 Local::ToSend(..) | Local::Synced => {
                     // We haven't sent any SETTINGS frames to be ACKed, so
                     // this is very bizarre! Remote is either buggy or malicious.
+                    #[cfg(feature = "verif-hooks")]
+                    crate::verif::ev("settings.stray_ack", Vec::new);
                     proto_err!(conn: "received unexpected settings ack");
                     Err(Error::library_go_away(Reason::PROTOCOL_ERROR))
                 }
@@ -89,6 +97,10 @@ impl Settings {
 
     pub(crate) fn send_settings(&mut self, frame: frame::Settings) -> Result<(), UserError> {
         assert!(!frame.is_ack());
+        #[cfg(feature = "verif-hooks")]
+        crate::verif::ev("settings.send_settings", || {
+            self.verif_args(&[], &[Some(&frame)])
+        });
         match &self.local {
             Local::ToSend(..) | Local::WaitingAck(..) => Err(UserError::SendSettingsWhilePending),
             Local::Synced => {
@@ -120,8 +132,14 @@ impl Settings {
         C: Buf,
         P: Peer,
     {
+        #[cfg(feature = "verif-hooks")]
+        let _verif = crate::verif::enter("settings.poll_send", || {
+            self.verif_args(&[], &[self.verif_local(), self.remote.as_ref()])
+        });
         if let Some(settings) = self.remote.clone() {
             if !dst.poll_ready(cx)?.is_ready() {
+                #[cfg(feature = "verif-hooks")]
+                crate::verif::ev("settings.blocked_ack", Vec::new);
                 return Poll::Pending;
             }
 
@@ -130,11 +148,15 @@ impl Settings {
 
             // Buffer the settings frame
             dst.buffer(frame.into()).expect("invalid settings frame");
+            #[cfg(feature = "verif-hooks")]
+            crate::verif::ev("settings.emit_ack", Vec::new);
 
             tracing::trace!("ACK sent; applying settings");
 
             let is_initial = self.mark_remote_initial_settings_as_received();
             streams.apply_remote_settings(&settings, is_initial)?;
+            #[cfg(feature = "verif-hooks")]
+            crate::verif::ev("settings.remote_applied", || vec![is_initial as i64]);
 
             if let Some(val) = settings.header_table_size() {
                 dst.set_send_header_table_size(val as usize);
@@ -150,12 +172,16 @@ impl Settings {
         match &self.local {
             Local::ToSend(settings) => {
                 if !dst.poll_ready(cx)?.is_ready() {
+                    #[cfg(feature = "verif-hooks")]
+                    crate::verif::ev("settings.blocked_local", Vec::new);
                     return Poll::Pending;
                 }
 
                 // Buffer the settings frame
                 dst.buffer(settings.clone().into())
                     .expect("invalid settings frame");
+                #[cfg(feature = "verif-hooks")]
+                crate::verif::ev("settings.emit_local", || verif_params(Some(settings)));
                 tracing::trace!("local settings sent; waiting for ack: {:?}", settings);
 
                 self.local = Local::WaitingAck(settings.clone());
@@ -164,5 +190,51 @@ impl Settings {
         }
 
         Poll::Ready(Ok(()))
+    }
+}
+
+// ===== verification hooks (feature `verif-hooks`, off by default; add-only) =====
+
+#[cfg(feature = "verif-hooks")]
+fn verif_params(f: Option<&frame::Settings>) -> Vec<i64> {
+    let o = |v: Option<u32>| v.map(|x| x as i64).unwrap_or(-1);
+    match f {
+        None => vec![-1; 7],
+        Some(f) => vec![
+            o(f.header_table_size()),
+            f.is_push_enabled().map(|b| b as i64).unwrap_or(-1),
+            o(f.max_concurrent_streams()),
+            o(f.initial_window_size()),
+            o(f.max_frame_size()),
+            o(f.max_header_list_size()),
+            f.is_extended_connect_protocol_enabled()
+                .map(|b| b as i64)
+                .unwrap_or(-1),
+        ],
+    }
+}
+
+#[cfg(feature = "verif-hooks")]
+impl Settings {
+    fn verif_local(&self) -> Option<&frame::Settings> {
+        match &self.local {
+            Local::ToSend(f) | Local::WaitingAck(f) => Some(f),
+            Local::Synced => None,
+        }
+    }
+
+    fn verif_args(&self, head: &[i64], frames: &[Option<&frame::Settings>]) -> Vec<i64> {
+        let mut v = head.to_vec();
+        v.push(match self.local {
+            Local::ToSend(..) => 0,
+            Local::WaitingAck(..) => 1,
+            Local::Synced => 2,
+        });
+        v.push(self.remote.is_some() as i64);
+        v.push(self.has_received_remote_initial_settings as i64);
+        for f in frames {
+            v.extend(verif_params(*f));
+        }
+        v
     }
 }
